@@ -24,6 +24,9 @@ pub struct Obs {
     /// Debug text of the top-level builder after the last call
     pub debug: Option<Result<String, String>>,
     pub debug_pretty: Option<Result<String, String>>,
+    /// final `{:?}` / `{:#?}` text and built shape of a second builder that was formatted (both ways) after every
+    /// top-level call: printing is an observation, so neither may differ from the builder printed once
+    pub debug_stepwise: Option<(Result<String, String>, Result<String, String>, Option<Vec<Vec<usize>>>)>,
     pub build_panic: Option<String>,
     pub layout: Option<Layout>,
     pub ident_error: Option<String>,
@@ -60,6 +63,23 @@ pub fn observe(ops: &[Op], resmap: &[u8], need: Need) -> Obs {
             catch_unwind(AssertUnwindSafe(|| format!("{:#?}", reg.builder))).map_err(|p| payload_str(&*p)),
         );
     }
+    if need.debug {
+        let ctx_s = Ctx::new(info_n, resmap.to_vec());
+        let mut b = shred::DispatcherBuilder::new();
+        let mut calls = Vec::new();
+        let (mut next_id, mut path) = (0, Vec::new());
+        for (i, op) in ops.iter().enumerate() {
+            path.push(i);
+            register_ops_step(&mut b, std::slice::from_ref(op), &mut next_id, &mut path, &ctx_s, &mut calls);
+            path.pop();
+            let _ = debug_text(&b);
+            let _ = catch_unwind(AssertUnwindSafe(|| format!("{:#?}", b)));
+        }
+        let t1 = debug_text(&b);
+        let t2 = catch_unwind(AssertUnwindSafe(|| format!("{:#?}", b))).map_err(|p| payload_str(&*p));
+        let shape = build(b).ok().map(|d| d.verif_layout().0);
+        o.debug_stepwise = Some((t1, t2, shape));
+    }
     let mut d = match build(reg.builder) {
         Ok(d) => d,
         Err(e) => {
@@ -71,7 +91,7 @@ pub fn observe(ops: &[Op], resmap: &[u8], need: Need) -> Obs {
     let (shape, ntl) = d.verif_layout();
     o.shape = shape;
     o.ntl = ntl;
-    let world = new_world();
+    let world = if resmap.iter().any(|c| *c as usize >= NCONCRETE) { new_world_wide() } else { new_world() };
     match identify(&mut d, &ctx, &world) {
         Ok(l) => o.layout = Some(l),
         Err(e) => o.ident_error = Some(e),
